@@ -778,7 +778,7 @@ def run_shard(tier, seed, shard, nshards, res):
                 trial_cache(dc, sc, res, rng, kind, label)
             else:
                 trial_container(dc, sc, res, rng, kind, label)
-            if res.counters.get('violations_raw', 0) > 8:
+            if res.new_violations() > 8:
                 return
         for i in range(6 if tier == 'quick' else 60):
             rng = common.rng_for(seed, 'c06w', shard, i)
@@ -803,5 +803,5 @@ def run_shard(tier, seed, shard, nshards, res):
         for i in range(m):
             rng = common.rng_for(seed, 'c06s', shard, i)
             block_schedule(dc, sc, res, rng, 'c06 sched seed=%d shard=%d i=%d' % (seed, shard, i))
-            if res.counters.get('violations_raw', 0) > 8:
+            if res.new_violations() > 8:
                 return
